@@ -68,7 +68,21 @@ func corruptFrame(rc *RunCtx, valid []byte, streamEntry bool) ([]byte, string) {
 		proto, _ := rc.Sample["protocol"].(string)
 		return giantRequest(proto, n), fmt.Sprintf("well-framed request for an unknown method with a %d-byte name", n)
 	}
-	switch tp.Intn("corrupt", 10) {
+	switch tp.Intn("corrupt", 11) {
+	case 10:
+		// a frame that is wrong from its first byte on (unknown version, absurd header size) AND shorter than
+		// announced: whoever decides to skip "the rest of the frame" must cope with a rest that never comes
+		rc.Fault("undecodable-start-of-a-frame-that-is-cut-short")
+		out := make([]byte, 4, 24)
+		binary.BigEndian.PutUint32(out, []uint32{100, 5000, 70000}[tp.Intn("corrupt", 3)])
+		out = append(out, []byte{1, 0, 0xff, 0x7f}[tp.Intn("corrupt", 4)])
+		if out[4] == 0 {
+			out = append(out, 0x7f, 0xff, 0xff, 0xf0) // header block larger than the frame
+		}
+		for i, n := 0, tp.Intn("corrupt", 8); i < n; i++ {
+			out = append(out, byte(tp.Intn("corrupt", 256)))
+		}
+		return out, fmt.Sprintf("frame announcing %d bytes, starting % x, cut after %d", binary.BigEndian.Uint32(out), out[4:min(len(out), 9)], len(out)-4)
 	case 9:
 		// a size prefix no frame can have, followed by bytes that read as a plausible size: a receiver that
 		// "skips" the impossible frame on a stream starts waiting for a frame that does not exist
@@ -154,28 +168,49 @@ func hostileBody(rc *RunCtx, proto, method string, mtype thrift.TMessageType) ([
 		method = "nosuch"
 	}
 	fid := int16([]int{0, 1, 2, 99, -1, 32767}[tp.Intn("corrupt", 6)])
-	p.WriteMessageBegin(ctx, method, mtype, 0)
+	oddType := ""
+	if k := tp.Intn("msgtype", 12); k >= 4 {
+		// a message type the receiver does not expect at this point, or one that does not exist
+		mtype = thrift.TMessageType([]int32{0, 1, 2, 3, 4, 5, 6, 7}[k-4])
+		if tp.Intn("msgtype", 3) == 0 {
+			mtype = thrift.TMessageType([]int32{8, 15, 100, 255}[tp.Intn("msgtype", 4)])
+		}
+		oddType = fmt.Sprintf(" message type %d,", mtype)
+	}
+	p.WriteMessageBegin(ctx, method, mtype, int32([]int{0, 0, -1, 1 << 30}[tp.Intn("msgtype", 4)]))
 	p.WriteStructBegin(ctx, "x")
 	big := int(int32(sizeDict[tp.Intn("corrupt", len(sizeDict))]))
 	var what string
-	switch tp.Intn("corrupt", 6) {
-	case 0:
+	switch k := tp.Intn("corrupt", 6); {
+	case oddType != "" && tp.Intn("msgtype", 2) == 0:
+		p.WriteFieldBegin(ctx, "a", thrift.I32, 1)
+		p.WriteI32(ctx, 1)
+		p.WriteFieldEnd(ctx)
+		p.WriteFieldBegin(ctx, "b", thrift.I32, 2)
+		p.WriteI32(ctx, 2)
+		p.WriteFieldEnd(ctx)
+		p.WriteFieldStop(ctx)
+		p.WriteStructEnd(ctx)
+		p.WriteMessageEnd(ctx)
+		what = "well-formed arguments"
+		_ = k
+	case k == 0:
 		p.WriteFieldBegin(ctx, "f", thrift.LIST, fid)
 		p.WriteListBegin(ctx, thrift.I64, big)
 		what = fmt.Sprintf("list<i64> announcing %d elements", big)
-	case 1:
+	case k == 1:
 		p.WriteFieldBegin(ctx, "f", thrift.MAP, fid)
 		p.WriteMapBegin(ctx, thrift.STRING, thrift.STRUCT, big)
 		what = fmt.Sprintf("map<string,struct> announcing %d entries", big)
-	case 2:
+	case k == 2:
 		p.WriteFieldBegin(ctx, "f", thrift.SET, fid)
 		p.WriteSetBegin(ctx, thrift.BOOL, big)
 		what = fmt.Sprintf("set<bool> announcing %d elements", big)
-	case 3:
+	case k == 3:
 		p.WriteFieldBegin(ctx, "f", thrift.STRING, fid)
 		p.WriteI32(ctx, int32(big))
 		what = fmt.Sprintf("string announcing %d bytes", big)
-	case 4:
+	case k == 4:
 		depth := []int{10, 63, 64, 65, 1000, 20000}[tp.Intn("corrupt", 6)]
 		for i := 0; i < depth; i++ {
 			p.WriteFieldBegin(ctx, "f", thrift.STRUCT, fid)
@@ -202,7 +237,7 @@ func hostileBody(rc *RunCtx, proto, method string, mtype thrift.TMessageType) ([
 		what = fmt.Sprintf("lists nested %d deep", depth)
 	}
 	p.Flush(ctx)
-	return append([]byte(nil), buf.Bytes()...), fmt.Sprintf("valid envelope for %q (field %d), body: %s", method, fid, what)
+	return append([]byte(nil), buf.Bytes()...), fmt.Sprintf("valid envelope for %q (field %d),%s body: %s", method, fid, oddType, what)
 }
 
 func corruptHarness(rc *RunCtx) {
@@ -299,9 +334,12 @@ func corruptHarness(rc *RunCtx) {
 			// a second connection carries the garbage; the first one must stay usable
 			c2 := env.newAdapterConn()
 			c2.Open()
-			c2.Write(bad)
+			// raw bytes straight into the server's end of the connection (the client-side stream would forward
+			// whole frames only, and a frame that is shorter than announced is exactly what must get through)
+			srvEnd := env.streams[len(env.streams)-1]
+			srvEnd.PeerWrite(bad)
 			if tp.Intn("cfg", 2) == 0 {
-				c2.Close()
+				srvEnd.PeerEnd(nil)
 			}
 			settle(time.Second)
 		case "nats-client":
